@@ -150,6 +150,41 @@ func suiteEmbed(tier string, seed uint64) *Report {
 			}
 		}
 	}
-	rep.Rule = "directed: structs embedding two levels deep (value around pointer, pointer in pointer, pointer in pointer in value; nil at either level; inside slices and maps) x 32 option masks: no encoder panics, sen.String / pretty.JSON / oj.Marshal / alt.Decompose denote the tree oj.JSON denotes, oj.JSON equals encoding/json under the Go-compatible options; one sen / oj / pretty Writer used for 2-5 calls with the option flags changed between the calls equals a fresh Writer each time"
+	// directed: a member that is nil only behind a pointer (**T with a nil inner pointer, *any holding
+	// nothing) is dropped under OmitNil and written as null otherwise, by every encoder and in the
+	// tight and the indented writers alike
+	{
+		type ppIn struct{ V int }
+		type ppT struct {
+			A int
+			P **int
+			Q *any
+			R **ppIn
+		}
+		var np *int
+		var na any
+		var nin *ppIn
+		for vi, v := range []any{ppT{A: 1}, ppT{A: 1, P: &np, Q: &na, R: &nin}, &ppT{A: 2, P: &np}, []any{ppT{A: 3, Q: &na}}, map[string]any{"m": ppT{A: 4, R: &nin}}} {
+			for _, omit := range []bool{true, false} {
+				for _, indent := range []int{0, 2} {
+					o := ojg.Options{Sort: true, OmitNil: omit, Indent: indent}
+					rep.Evaluations++
+					ts := trees(v, o)
+					desc := fmt.Sprintf("nil behind a pointer: value %d omitNil=%v indent=%d", vi, omit, indent)
+					for name, t := range ts {
+						nulls := strings.Count(t, " n") + strings.Count(t, "[n") + strings.Count(t, "{n")
+						if strings.HasPrefix(t, "F ") || strings.HasPrefix(t, "E ") {
+							rep.Add(Disagreement{Case: desc, Where: name, Kind: "impl-law:nil-behind-pointer", Impl: t, Spec: "no failure"})
+						} else if omit && strings.Contains(t, "n") && nulls > 0 {
+							rep.Add(Disagreement{Case: desc, Where: name, Kind: "impl-law:nil-behind-pointer", Impl: t, Spec: "no null member under OmitNil"})
+						} else if t != ts["sen.String"] {
+							rep.Add(Disagreement{Case: desc, Where: name, Kind: "impl-law:nil-behind-pointer", Impl: t, Spec: ts["sen.String"] + " (sen.String)"})
+						}
+					}
+				}
+			}
+		}
+	}
+	rep.Rule = "directed: members nil only behind a pointer (**T, *any) under OmitNil on / off, tight and indented, all encoders agree and none writes null under OmitNil; structs embedding two levels deep (value around pointer, pointer in pointer, pointer in pointer in value; nil at either level; inside slices and maps) x 32 option masks: no encoder panics, sen.String / pretty.JSON / oj.Marshal / alt.Decompose denote the tree oj.JSON denotes, oj.JSON equals encoding/json under the Go-compatible options; one sen / oj / pretty Writer used for 2-5 calls with the option flags changed between the calls equals a fresh Writer each time"
 	return rep
 }
